@@ -8,6 +8,7 @@ use rayon::prelude::*;
 use serde_json::json;
 use std::collections::BTreeMap;
 use std::panic::{AssertUnwindSafe, catch_unwind};
+use vcore::refval::RefVal;
 use vcore::report::Report;
 
 fn wire(t: &OwnedTerm) -> Option<OwnedTerm> {
@@ -181,6 +182,13 @@ fn times(rep: &Report) {
         let valid = h <= 23 && m <= 59 && s <= 59 && u <= 999_999 && p <= 6;
         let got = ElixirTime::try_new(h, m, s, u, p);
         if got.is_some() != valid { rep.violation("time validation wrong", json!({"h": h, "m": m, "s": s, "us": u, "precision": p, "accepted": got.is_some()})); return; }
+        // the three validating constructors draw the same line for the clock and sub-second fields
+        let n_ok = ElixirNaiveDateTime::try_new(2024, 2, 29, h, m, s, u, p).is_some();
+        let u_ok = ElixirDateTime::try_utc(2024, 2, 29, h, m, s, u, p).is_some();
+        if n_ok != valid || u_ok != valid {
+            rep.violation("date-time constructors disagree with the time validation", json!({"h": h, "m": m, "s": s, "us": u, "precision": p, "valid": valid, "naive_accepts": n_ok, "utc_accepts": u_ok}));
+            return;
+        }
         if let Some(t0) = got {
             let t: OwnedTerm = t0.into();
             if ElixirTime::from_term(&t) != Some(t0) { rep.violation("time does not convert back", json!({"time": format!("{:?}", t0)})); }
@@ -299,6 +307,22 @@ fn builders_and_proplists(rep: &Report) {
             let mut want_map = BTreeMap::new();
             for (k, v) in &expect { want_map.insert(atom(k), v.clone()); }
             if mb.build() != OwnedTerm::Map(want_map) { rep.violation("atom-key map builder output wrong", json!({"n": n})); }
+        }
+    }
+    // every name of the atom dictionary as a builder key and as an atom value: what reaches the wire is judged against
+    // the string that was passed in (an oracle built with Atom::new would share a wrong name with the library)
+    for name in crate::universe::atom_names(false) {
+        if name.len() > 255 { continue; }
+        rep.add("evaluations", 1);
+        let kw = KeywordListBuilder::new().put_term(&name, int(1)).put_term("v", OwnedTerm::atom(&name)).build();
+        let mb = AtomKeyMapBuilder::new().insert_term(&name, int(1)).build();
+        let want_kw = RefVal::list(vec![RefVal::Tuple(vec![RefVal::atom(&name), RefVal::int(1)]), RefVal::Tuple(vec![RefVal::atom("v"), RefVal::atom(&name)])], RefVal::Nil);
+        let want_mb = RefVal::map(vec![(RefVal::atom(&name), RefVal::int(1))]);
+        for (what, built, want) in [("keyword list", kw, want_kw), ("atom-key map", mb, want_mb)] {
+            let on_wire = erltf::encode(&built).ok().and_then(|b| vcore::refcodec::ref_decode(&b).ok());
+            if !on_wire.as_ref().map(|w| vcore::refval::exact_eq(w, &want)).unwrap_or(false) {
+                rep.violation("builder writes a key or atom value under another name", json!({"builder": what, "name": name, "on_the_wire": on_wire.map(|w| w.short())}));
+            }
         }
     }
     // proplists of length <= 3 over {{a,1},{a,2},{b,1},{b,2},a,b}
